@@ -232,8 +232,8 @@ def rename_map(trees):
             cshape = _shape(cf, fresh)
             best, best_r = 0.0, None
             for rq in unmatched_r:
-                if rq in used or (("." in q) != ("." in rq)):
-                    continue
+                if rq in used:
+                    continue            # (a method may have become a module-level function or the other way round)
                 rf = rfunc(rq)
                 if rf is None:
                     continue
